@@ -24,6 +24,8 @@ for name in names:
     w = '/var/tmp/seed-%s-%d' % (name, os.getpid())
     sh('git -C /repo worktree add -q --detach %s HEAD' % w)
     r = {'property': prop}
+    if not confirm and name in results:
+        r.update({k: v for k, v in results[name].items() if k in ('demo_on_unchanged_tree', 'tests_with_change', 'demo_with_change')})
     try:
         demo = os.path.join(d, 'demo.sh')
         if confirm:
